@@ -307,6 +307,8 @@ class Acc(object):
         self.samples = []
         self.skipped = {}
         self.classes = {}
+        self.watch_key = None
+        self.watch_result = None
 
     def evaluation(self, nontrivial_key=None):
         self.evaluations += 1
@@ -324,6 +326,11 @@ class Acc(object):
         self.classes[cls] = n + 1
         if n < 4:
             self.failures.append((order, {'scenario': scenario, 'detail': detail}, cls))
+
+    def observe(self, key, ok, detail):
+        """replay support: remember the outcome of the check with key == self.watch_key"""
+        if self.watch_key is not None and key == self.watch_key and self.watch_result is None:
+            self.watch_result = (ok, detail)
 
     def skip(self, why):
         self.skipped[why] = self.skipped.get(why, 0) + 1
